@@ -19,13 +19,15 @@ from . import _sched
 from .c05 import run_worker_cases
 
 PROP = "C11"
-MODULES = ["XpmVerif.Properties.C11"]
+MODULES = ["XpmVerif.Properties.C11", "XpmVerif.Properties.C11Suspend"]
 RULE = ("(1) random workloads (<= 5 jobs, <= 2 in-memory tokens, duplicates, failing bodies, initial success markers) x random schedules of scheduler "
         "events and job-process moves with up to 2 scheduler deaths (crash at any step, inside prepare() with the script left absent/broken/ready, or inside aio_run between spawn and pid file), compared event by "
         "event with the Lean model; non-trivial = at least one death with a job process alive or a marker present at that moment; "
         "(2) real experiments: 3 small DAGs (chain, fork with token, token at capacity) x phases (before the first launch, while a job runs, between "
         "dependent jobs, while a token is held, inside prepare() after params.json / after the script before chmod / before the spawn, inside aio_run after the spawn, "
-        "inside aio_run after the pid file was opened) x signals (SIGKILL, SIGTERM, SIGINT) x restart before/after the surviving job ended; plus 2 consecutive kills "
+        "inside aio_run after the pid file was opened) x signals (SIGKILL, SIGTERM, SIGINT) x restart before/after the surviving job ended"
+        "; plus suspension of the surviving job process (SIGSTOP … SIGCONT, 0.5 s quick / 0.5 and 1.5 s thorough): while the second run waits on the adopted job, "
+        "or already suspended at the re-submission and resumed afterwards (a suspended job is a running job: adopted, waited for, same final results); plus 2 consecutive kills "
         "(run 1 killed while a job runs, run 2 adopts and is killed while it still runs / right after it ended, run 3 must finish; the restart engine of (1) has any "
         "number of deaths, the real matrix samples two); a restarted experiment process that raises instead of running is the monitor failure restart-crashes; "
         "distinct = hash of the case")
@@ -166,7 +168,31 @@ def real_cases(ctx, rng):
     for i, c in enumerate(allc):
         d = DAGS[c["dag"]]
         cases.append(dict(c, id=f"real{i}", jobs=d["jobs"], token_total=d["token_total"], delay=rng.choice([0.0, 0.0, 0.05, 0.2])))
-    return cases + multikill_cases(ctx, rng)
+    # the suspension cases come first: their monitor failures head the replay when they fire
+    return suspend_cases(ctx, rng, len(cases)) + cases + multikill_cases(ctx, rng)
+
+
+def suspend_cases(ctx, rng, base):
+    """killed while a job runs, run again; the surviving job process is suspended (SIGSTOP) and resumed (SIGCONT): while the second run
+    waits on the adopted job / already at the moment of the re-submission.  A suspended process is a running process."""
+    allc = []
+    for dag in DAGS:
+        for mode in ("adopted", "at-resubmission"):
+            for sig in ("SIGKILL", "SIGTERM"):
+                for dur in (0.5, 1.5):
+                    allc.append({"dag": dag, "suspend": mode, "signal": sig, "suspend_for": dur})
+    if ctx.quick():
+        r = ctx.seed
+        dags = list(DAGS)
+        allc = [{"dag": "chain", "suspend": "adopted", "signal": ["SIGKILL", "SIGTERM"][r % 2], "suspend_for": 0.5},
+                {"dag": dags[(r + 1) % 3], "suspend": "at-resubmission", "signal": ["SIGTERM", "SIGKILL"][r % 2], "suspend_for": 0.5},
+                {"dag": dags[(r + 2) % 3], "suspend": "adopted", "signal": "SIGKILL", "suspend_for": 0.5}]
+    cases = []
+    for i, c in enumerate(allc):
+        d = DAGS[c["dag"]]
+        ph = "running+suspend-adopted" if c["suspend"] == "adopted" else "running+suspended-at-resubmission"
+        cases.append(dict(c, id=f"susp{i}", phase=ph, finish_before_restart=False, jobs=d["jobs"], token_total=d["token_total"], delay=0.0))
+    return cases
 
 
 KILL_PAIRS = [["SIGTERM", "SIGKILL"], ["SIGKILL", "SIGTERM"], ["SIGTERM", "SIGTERM"], ["SIGKILL", "SIGKILL"]]
@@ -334,7 +360,7 @@ def real_model_lines(case, o):
     L = [{"op": "init", "tokens": toks, "jobs": jobs, "done": []}]
     sub = [{"op": "ev", "e": ["sched", ["submit", i]]} for i in range(len(jobs))]
     L += sub
-    ph = case["phase"]
+    ph = case["phase"].split("+")[0]   # a suspension is invisible in the model: a suspended process is a live process
     started = set(o.get("started_before_kill", []))
     ended = set(o.get("ended_before_kill", []))
     if ph == "before-launch":
@@ -385,7 +411,7 @@ def real_part(ctx):
             ctx.count("real_case_errors", (o.get("error") or "rendezvous not reached")[:60])
             continue
         multi = case.get("kills", 1) >= 2
-        ctx.case({"real": {k: case.get(k) for k in ("dag", "phase", "signal", "finish_before_restart", "delay", "kills")},
+        ctx.case({"real": {k: case.get(k) for k in ("dag", "phase", "signal", "finish_before_restart", "delay", "kills", "suspend", "suspend_for")},
                   "log": o.get("log"), "final": o.get("final3" if multi else "final2"), "tap": o.get("tap")}, True)
         ctx.count("real_phase", case["phase"])
         ctx.count("real_signal", case["signal"])
@@ -394,6 +420,10 @@ def real_part(ctx):
         ctx.count("real_survivors", sum(1 for v in (o.get("alive_after_kill1") if multi else o.get("alive_after_kill", {})).values() if v))
         ctx.count("real_adopted", len(o.get("tap", {}).get("adopted2", [])) + len(o.get("tap", {}).get("adopted3", [])))
         ctx.count("real_reaping", o.get("reaping"))
+        if case.get("suspend"):
+            # the suspension took place: the job process was in state T (stopped) and was resumed
+            ctx.count("real_suspended", f"{case['suspend']}: states {','.join(o.get('status_when_suspended') or ['none'])}; "
+                                        f"{len(o.get('suspended') or [])} stopped, {len(o.get('resumed') or [])} resumed")
         mf = multikill_monitor(case, o) if multi else real_monitor(case, o)
         for key, what in mf:
             ctx.monitor_fail(key, what, {"real": case})
@@ -454,7 +484,10 @@ def real_part(ctx):
 
 
 def prove(ctx):
-    _sched.prove(ctx, MODULES)
+    from ..translate import psstatus
+    m = psstatus.generate(common.REPO, common.LEAN)
+    ctx.notes.append(f"translator(psstatus: statuses PsutilProcess treats as alive): {m[1]}")
+    _sched.prove(ctx, MODULES, extra_msgs=[m])
 
 
 def correspond(ctx):
